@@ -171,6 +171,11 @@ func HarnessC19a() {
 		replaceTop(b)
 		mustReject, why = true, "undecodable"
 	}
+	if verifBoundOr("SIZEPERT", 0) == 1 {
+		// the listed conditions do not mention the recorded Size: a root whose Size is anything at all
+		// (0 included: a writer that omits the field) must still be rejected when one of them holds
+		bad.Size = verifNondetU64("size")
+	}
 	var lt *Mast
 	var lerr error
 	panicked := verifPanics(func() { lt, lerr = bad.LoadMast(vctx, cfg) })
